@@ -140,8 +140,9 @@ func isDaemonSet(p *v1.Pod) bool {
 	return false
 }
 
-// PodInGroup is the harness's own statement of pod attribution for the pod shapes the simulated
-// worlds contain (node selector or nothing); the full predicate is the subject of C14.
+// PodInGroup is the harness's own statement of pod attribution (C14's statement): not
+// DaemonSet-owned and selected by the node selector or by a required node-affinity In expression on
+// the group's key listing its value; for the default group: no selector, no affinity, not static.
 func PodInGroup(p *v1.Pod, g *GroupSpec) bool {
 	if isDaemonSet(p) {
 		return false
@@ -149,7 +150,24 @@ func PodInGroup(p *v1.Pod, g *GroupSpec) bool {
 	if g.Opts.Name == controller.DefaultNodeGroup {
 		return len(p.Spec.NodeSelector) == 0 && p.Spec.Affinity == nil && p.Annotations["kubernetes.io/config.source"] != "file"
 	}
-	return p.Spec.NodeSelector[g.Opts.LabelKey] == g.Opts.LabelValue
+	if v, ok := p.Spec.NodeSelector[g.Opts.LabelKey]; ok && v == g.Opts.LabelValue {
+		return true
+	}
+	if a := p.Spec.Affinity; a != nil && a.NodeAffinity != nil && a.NodeAffinity.RequiredDuringSchedulingIgnoredDuringExecution != nil {
+		for _, term := range a.NodeAffinity.RequiredDuringSchedulingIgnoredDuringExecution.NodeSelectorTerms {
+			for _, e := range term.MatchExpressions {
+				if e.Key != g.Opts.LabelKey || e.Operator != v1.NodeSelectorOpIn {
+					continue
+				}
+				for _, v := range e.Values {
+					if v == g.Opts.LabelValue {
+						return true
+					}
+				}
+			}
+		}
+	}
+	return false
 }
 
 func (h *Hist) newScanCtx() *ScanCtx {
